@@ -130,9 +130,7 @@ Proof.
   - rewrite H2, H1, compl_M by auto. reflexivity.
   - rewrite H3, H1, compl_degrees by auto. reflexivity.
   - intros v Hv. cbn [an a_compl] in Hv. rewrite H4 by auto. rewrite H1.
-    unfold si_complement, a_neighbours at 1.
-    pose proof (filter_length_le (adj a v) (seq 0 (an a))) as Hl. rewrite seq_length in Hl.
-    destruct (Nat.ltb_spec (an a) (length (filter (adj a v) (seq 0 (an a))))); [lia|].
+    unfold si_complement.
     unfold a_neighbours at 1. rewrite compl_go_filter.
     rewrite si_remove_sorted by (apply sorted_filter, sorted_seq).
     f_equal. rewrite filter_filter. unfold a_neighbours. cbn [an adj a_compl].
